@@ -62,8 +62,10 @@ def ops : List (String × Op) := [
       -- a location relative to chunk 1 (window w1) is moved onto chunk 2 (window w2) through the chromosome
       let c ← pRawLoc; let a1 ← pNat; let b1 ← pNat; let s1 ← pStrand; let a2 ← pNat; let b2 ← pNat; let s2 ← pStrand
       pure (showR showLocation (do
-        let x ← Loc.build c
+        -- the harness builds both chunk parents first (`SingleInterval(a, b, strand)` refuses b < a), then the child
         let w1 ← mkSingle a1 b1 s1
+        let _ ← mkSingle a2 b2 s2
+        let x ← Loc.build c
         let up ← liftOnce x w1
         chunkDown up (a2, b2) s2))),
   ("relocate", do
